@@ -74,7 +74,10 @@ def _real_dtype(dtype):
 
 def sym_array(obj, dtype=None, **kw):
     if is_symbolic(obj):
-        return SymArray.make(obj, cplx=(dtype is not None and _kind_of(dtype) == 'c'))
+        out = SymArray.make(obj, cplx=(dtype is not None and _kind_of(dtype) == 'c'))
+        if getattr(obj, '_ikind', False) and (dtype is None or _kind_of(dtype) in 'iu'):
+            out._ikind = True       # numpy.array of an integer array is an integer array
+        return out
     return np.array(obj, dtype=_real_dtype(dtype), **kw)
 
 
